@@ -1,6 +1,8 @@
 # C15 Retransmission: gate before emit, refresh after, skip acked (necessary conditions)
 import re
 from sa.rules import *
+from sa.rules import NEGATE
+import rules.wave3 as W3
 SR = "channel::reliable::SendChannelReliable"
 
 def rules(t):
@@ -65,7 +67,27 @@ def rules(t):
             a0 = strip(side)
             if is_age(side) and isinstance(a0, tuple) and a0[0] == "call" and a0[2] and not fmt(strip(a0[2][0])).endswith(".current_time"):
                 r.bad("horizon-clock", Site(u, br["bb"], 0, u.blocks[br["bb"]]["term"]), f"packet age is computed from {fmt(a0[2][0])[:60]} instead of the connection clock: records younger than the horizon can be dropped, so a late ack no longer stops the retransmission")
-    if not old: r.bad("horizon", None, "no `current_time - sent_at >= horizon` test in update(): sent-packet records are never (or always) discarded")
+    # the same test as the predicate of an iterator adaptor over sent_packets: `.iter().take_while(|(_, p)| now - p.sent_at >= H).map(key).collect()`
+    adaptor_ok = []
+    for g in fn_and_closures(t, u):
+        if g is u: continue
+        c0 = strip(g.origin_of_local(0))
+        neg = False
+        while isinstance(c0, tuple) and c0[0] == "un" and c0[1] == "Not": neg = not neg; c0 = c0[2]
+        cnd = t.norm_cond(c0)
+        if cnd[0] != "cmp": continue
+        op = NEGATE[cnd[1]] if neg else cnd[1]
+        holds = (is_age(cnd[2]) and op == "Ge") or (is_age(cnd[3]) and op == "Le")
+        if not holds: continue
+        tag = re.search(r"\{closure#\d+\}$", g.path).group(0)
+        for c_ in t.sites(u):
+            if c_.node["k"] == "call" and method_of(callee_name(c_.node)) in ("take_while", "filter", "filter_map", "skip_while") and any(tag in fmt(y) for y in t.args(c_)[1:]) and "sent_packets" in fmt(t.arg(c_, 0)) and method_of(callee_name(c_.node)) != "skip_while":
+                adaptor_ok.append(c_); r.site(c_, "horizon predicate of an adaptor")
+                age = cnd[2] if is_age(cnd[2]) else cnd[3]
+                a0 = strip(resolved(t, age, g))
+                if isinstance(a0, tuple) and a0[0] == "call" and a0[2] and not fmt(strip(a0[2][0])).endswith("current_time"):
+                    r.bad("horizon-clock", c_, f"packet age is computed from {fmt(a0[2][0])[:60]} instead of the connection clock")
+    if not old and not adaptor_ok: r.bad("horizon", None, "no `current_time - sent_at >= horizon` test in update(): sent-packet records are never (or always) discarded")
     rem = list(t.effects("sent_packets", {"remove"}, u)) + [c for c in t.calls(r"OccupiedEntry.*::remove$|::remove_entry$", u) if "sent_packets" in fmt(t.arg(c, 0))]
     for c in rem: r.site(c, "record removed")
     if not rem: r.bad("horizon-remove", None, "update() does not remove old sent-packet records")
@@ -73,7 +95,8 @@ def rules(t):
         direct = any(t.edge_dominates(u, e, c.bb) for e, br in old)
         keys = fmt(t.arg(c, 1)) if len(c.node["args"]) > 1 else ""
         collected = [p_ for p_ in t.calls(r"Vec.*::push$", u) if any(t.edge_dominates(u, e, p_.bb) for e, br in old)]
-        if not direct and not collected: r.bad("horizon-dom", c, "a sent-packet record is removed on a path that did not establish `current_time - sent_at >= horizon`")
+        via_adaptor = bool(adaptor_ok) and len(c.node["args"]) > 1 and not direct
+        if not direct and not collected and not via_adaptor: r.bad("horizon-dom", c, "a sent-packet record is removed on a path that did not establish `current_time - sent_at >= horizon`")
     out.append(r)
     return out
 
@@ -123,4 +146,13 @@ def rules(t):
     out = _rules_c15(t)
     out.append(index_agreement(t))
     out.append(shared.ack_once(t, "C15.e"))
+    out.append(W3.ack_lookup_range(t, "C15.f"))
+    out.append(W3.budget_fail_stays(t, "C15.g", ('reliable',)))
+    rr_ = RuleResult("C15.h", "the retransmission scan is not left early: every due unacknowledged message the budget allows is examined in the tick (shared with C01.f)", floor=1)
+    import rules.C01 as _SRC
+    for x_ in _SRC.rules(t):
+        if x_.id == "C01.f":
+            rr_.sites += x_.sites
+            for v_ in x_.violations: rr_.bad(v_.key, v_.site, v_.msg)
+    out.append(rr_)
     return out
